@@ -183,7 +183,35 @@ pub struct SliceEntry {
     pub wrap_name: fn() -> String,
     pub ser3: fn(&Term) -> String,
     pub iter: fn(&Term, usize) -> String,
+    /// serialize the slice reference (and a structure holding it) through a faulty writer while the
+    /// allocator protects the borrowed buffer
+    pub wfails: fn(&Term, &str) -> String,
 }
+
+pub fn wfails_generic<T>(t: &Term, spec: &str) -> String
+where
+    T: 'static + FromTerm,
+    for<'a> &'a [T]: Serialize,
+    for<'a> Wrap<&'a [T]>: Serialize,
+    Vec<T>: Serialize,
+{
+    use std::sync::atomic::Ordering::SeqCst;
+    let Some(v) = crate::catch(|| Vec::<T>::from_term(t)) else { return "badterm".into() };
+    let before = crate::ser_generic(&v);
+    let protect = if v.capacity() > 0 && core::mem::size_of::<T>() > 0 { v.as_ptr() as usize } else { 0 };
+    let f0 = crate::alloc::PROTECTED_FREES.load(SeqCst);
+    crate::alloc::PROTECTED.store(protect, SeqCst);
+    let s: &[T] = &v;
+    let r1 = wfail_generic(&s, spec);
+    let r2 = wfail_generic(&Wrap { a: s, tail: 0xBEEF }, spec);
+    crate::alloc::PROTECTED.store(0, SeqCst);
+    let frees = crate::alloc::PROTECTED_FREES.load(SeqCst) - f0;
+    let after = crate::ser_generic(&v);
+    format!("{} | {} frees={} intact={}", r1, r2, frees, before == after)
+}
+
+fn _unused() {}
+
 
 fn ser_hex<T: Serialize>(v: &T) -> String {
     match crate::ser_generic(v) {
@@ -223,6 +251,7 @@ where
             let again = ser_hex(&v);
             format!("ser3 V:{} S:{} I:{} WV:{} WS:{} WI:{} intact={}", vv, ss, ii, wv, ws, wi, again == vv)
         },
+        wfails: wfails_generic::<T>,
         iter: |t, announced| {
             let Some(v) = crate::catch(|| Vec::<T>::from_term(t)) else { return "badterm".into() };
             let it = SerIter::new(Lying { it: v.iter(), announced });
@@ -261,6 +290,171 @@ where
             let again = ser_hex(&v);
             format!("ser3 V:{} S:{} I:- WV:{} WS:{} WI:- intact={}", vv, ss, wv, ws, again == vv)
         },
+        wfails: wfails_generic::<T>,
         iter: |_, _| "iter -".into(),
+    }
+}
+
+// ------------------------------------------------------------------------------------------------
+// faulty writers (C13) and fragmenting / failing readers (C14)
+
+/// A writer that accepts `budget` bytes in total and then fails, takes at most `cap` bytes per
+/// call, returns `Interrupted` on every `int_every`-th call, and can fail on flush.
+pub struct FaultyWriter {
+    pub acc: Vec<u8>,
+    pub budget: Option<usize>,
+    pub cap: Option<usize>,
+    pub int_every: Option<usize>,
+    pub flush_fail: bool,
+    pub calls: usize,
+}
+
+impl std::io::Write for FaultyWriter {
+    fn write(&mut self, buf: &[u8]) -> std::io::Result<usize> {
+        self.calls += 1;
+        if let Some(j) = self.int_every {
+            if self.calls % j == 0 {
+                return Err(std::io::Error::new(std::io::ErrorKind::Interrupted, "interrupted"));
+            }
+        }
+        let mut n = buf.len();
+        if let Some(c) = self.cap {
+            n = n.min(c.max(1));
+        }
+        if let Some(b) = self.budget {
+            if self.acc.len() >= b {
+                return Err(std::io::Error::new(std::io::ErrorKind::Other, "device full"));
+            }
+            n = n.min(b - self.acc.len());
+        }
+        self.acc.extend_from_slice(&buf[..n]);
+        Ok(n)
+    }
+    fn flush(&mut self) -> std::io::Result<()> {
+        if self.flush_fail {
+            Err(std::io::Error::new(std::io::ErrorKind::Other, "flush failed"))
+        } else {
+            Ok(())
+        }
+    }
+}
+
+pub fn parse_wspec(spec: &str) -> FaultyWriter {
+    let mut w = FaultyWriter { acc: vec![], budget: None, cap: None, int_every: None, flush_fail: false, calls: 0 };
+    for kv in spec.split(',') {
+        if let Some((k, v)) = kv.split_once('=') {
+            match k {
+                "k" => w.budget = v.parse().ok(),
+                "m" => w.cap = v.parse().ok(),
+                "int" => w.int_every = v.parse().ok(),
+                "ff" => w.flush_fail = v == "1",
+                _ => {}
+            }
+        }
+    }
+    w
+}
+
+pub fn wfail_generic<T: Serialize>(v: &T, spec: &str) -> String {
+    if spec == "devfull" {
+        let res = crate::catch(|| {
+            let f = std::fs::OpenOptions::new().write(true).open("/dev/full").unwrap();
+            let mut bw = std::io::BufWriter::new(f);
+            v.serialize(&mut bw)
+        });
+        return match res {
+            None => "wfail panic -".into(),
+            Some(Ok(n)) => format!("wfail ok {} -", n),
+            Some(Err(_)) => "wfail err -".into(),
+        };
+    }
+    let mut w = parse_wspec(spec);
+    let res = crate::catch(|| v.serialize(&mut w));
+    let r = match res {
+        None => "panic".to_string(),
+        Some(Ok(n)) => format!("ok {}", n),
+        Some(Err(ser::Error::WriteError)) => "err".to_string(),
+        Some(Err(e)) => format!("other {:?}", e),
+    };
+    format!("wfail {} {}", r.replace(' ', ":"), crate::term::hex(&w.acc))
+}
+
+/// A reader over `data` that fragments reads according to a pattern, optionally returns
+/// `Interrupted` on every other call, and fails (with an error, or end of file) at `fail_at`.
+pub struct FaultyReader<'a> {
+    pub data: &'a [u8],
+    pub pos: usize,
+    pub pattern: Vec<usize>,
+    pub interrupts: bool,
+    pub fail_at: Option<usize>,
+    pub eof_at_fail: bool,
+    pub calls: usize,
+}
+
+impl std::io::Read for FaultyReader<'_> {
+    fn read(&mut self, buf: &mut [u8]) -> std::io::Result<usize> {
+        self.calls += 1;
+        if self.interrupts && self.calls % 2 == 0 {
+            return Err(std::io::Error::new(std::io::ErrorKind::Interrupted, "interrupted"));
+        }
+        let limit = self.fail_at.unwrap_or(self.data.len()).min(self.data.len());
+        if self.pos >= limit {
+            if self.fail_at.is_some() && !self.eof_at_fail {
+                return Err(std::io::Error::new(std::io::ErrorKind::Other, "device error"));
+            }
+            return Ok(0);
+        }
+        let step = self.pattern[self.calls % self.pattern.len()].max(1);
+        let n = buf.len().min(step).min(limit - self.pos);
+        buf[..n].copy_from_slice(&self.data[self.pos..self.pos + n]);
+        self.pos += n;
+        Ok(n)
+    }
+}
+
+pub fn parse_pattern(p: &str) -> (Vec<usize>, bool, bool) {
+    let interrupts = p.contains('i');
+    let buffered = p.contains('b');
+    let core: String = p.chars().filter(|c| *c != 'i' && *c != 'b').collect();
+    let pat = match core.as_str() {
+        "one" => vec![1],
+        "p3" => vec![3],
+        "p7" => vec![7],
+        "mix" => vec![1, 2, 3, 5, 8, 13, 1, 1, 64],
+        "all" => vec![usize::MAX],
+        s if s.starts_with('r') => {
+            let mut x: u64 = s[1..].parse().unwrap_or(1) * 2654435761 + 12345;
+            (0..32)
+                .map(|_| {
+                    x = x.wrapping_mul(6364136223846793005).wrapping_add(1442695040888963407);
+                    ((x >> 33) % 17 + 1) as usize
+                })
+                .collect()
+        }
+        _ => vec![1],
+    };
+    (pat, interrupts, buffered)
+}
+
+pub fn rchunk_generic<T>(bytes: &[u8], pattern: &str, fail_at: Option<usize>, eof: bool) -> String
+where
+    T: Deserialize + crate::Show,
+{
+    let (pat, interrupts, buffered) = parse_pattern(pattern);
+    let mut r = FaultyReader { data: bytes, pos: 0, pattern: pat, interrupts, fail_at, eof_at_fail: eof, calls: 0 };
+    let res = if buffered {
+        let mut br = std::io::BufReader::with_capacity(5, &mut r);
+        crate::catch(|| T::deserialize_full(&mut br))
+    } else {
+        crate::catch(|| T::deserialize_full(&mut r))
+    };
+    match res {
+        None => "rchunk panic".into(),
+        Some(Err(e)) => format!("rchunk {}", crate::err_string(&e)),
+        Some(Ok(v)) => {
+            let mut s = String::from("rchunk ok ");
+            v.show(&mut s);
+            s
+        }
     }
 }
